@@ -18,6 +18,10 @@ void _ZN9QDateTimeD1Ev(char *self) { }
 #endif
 uint32_t vp_c05_noff(void) { return C05_NOFF; }
 uint32_t vp_c05_ndis(void) { return C05_NDIS; }
+#ifndef C05_FASTBITS
+#define C05_FASTBITS 7
+#endif
+uint32_t vp_c05_fastbits(void) { return C05_FASTBITS; }
 /* libstdc++ glue: std::__new_allocator<SaslMechanism>::allocate(n) (inline, overridden at class level).  The header version
    ends in operator new(n * sizeof(T)) with a symbolic n (the number of mechanisms that survived the filters): cbmc then
    creates an object of symbolic size and every later access goes through the array theory (measured: SAT runs out of 6 GB
